@@ -187,11 +187,14 @@ def _fn_at(G, a):
 
 
 def _section_at(G, a):
+    # the innermost (shortest) section span containing the offset: a trusted raw item inside the extracted section
+    # is a 'prelude' span nested in the 'extracted' span
+    best = None
     for sec, spans in G.section_spans.items():
         for (s, e) in spans:
-            if s <= a < e:
-                return sec
-    return None
+            if s <= a < e and (best is None or (e - s) < best[0]):
+                best = (e - s, sec)
+    return best[1] if best else None
 
 
 def _where(G, prim):
